@@ -152,6 +152,22 @@ def _clone(v, memo):
         out = SList(v.length, v.elem, v.elem_sort)
         memo[id(v)] = out
         return out
+    if isinstance(v, tuple) and any(isinstance(x, (list, dict, set, Rec, SList, tuple)) for x in v):
+        # a tuple (or NamedTuple instance) is immutable itself but may HOLD mutable containers; forked paths must
+        # not share them
+        if id(v) in memo:
+            return memo[id(v)]
+        items = [_clone(x, memo) for x in v]
+        if all(a is b for a, b in zip(items, v)):
+            out = v
+        elif type(v) is tuple:
+            out = tuple(items)
+        elif hasattr(v, "_fields"):
+            out = tuple.__new__(type(v), items)
+        else:
+            out = v
+        memo[id(v)] = out
+        return out
     if isinstance(v, Closure):
         return v  # closures capture their env by reference (cells); fine for the targets (no fork inside)
     return v
@@ -958,7 +974,16 @@ class Executor:
             return
         if isinstance(n, ast.Attribute):
             for st2, o in self.ev(n.value, st, frame):
-                yield st2, o if isinstance(o, Exc) else self.getattr(o, n.attr, st2)
+                if isinstance(o, Exc):
+                    yield st2, o
+                    continue
+                v = self.getattr(o, n.attr, st2)
+                if isinstance(v, tuple) and len(v) == 3 and v[0] == "__property__":
+                    # a property of the record's real class: its getter is interpreted from source (may fork or raise)
+                    for st3, _kind, val in self.call_function(v[1], st2, [v[2]], {}):
+                        yield st3, val
+                    continue
+                yield st2, v
             return
         if isinstance(n, ast.Subscript):
             for st2, o in self.ev(n.value, st, frame):
@@ -1019,8 +1044,9 @@ class Executor:
                 if not any(is_sym(x) or isinstance(x, Rec) for x in vals):
                     yield st2, "<f-string>" if holes else text
                     continue
-                fn = self.func("fmt:" + text, *(["obj"] * len(vals)), "obj")
-                yield st2, SV(fn(*[self.as_obj(x) for x in vals]), "obj")
+                text2, vals2 = fold_template(n, vals)
+                fn = self.func("fmt:" + text2, *(["obj"] * len(vals2)), "obj")
+                yield st2, SV(fn(*[self.as_obj(x) for x in vals2]), "obj")
             return
         if isinstance(n, ast.Yield):
             # generator body, evaluated EAGERLY: the yielded values are collected per call (see call_function). Sound for generators
@@ -1445,6 +1471,38 @@ class Executor:
             return
         yield from self.ev(fn, st, frame)
 
+    def _singledispatch(self, f, args, kwargs, st) -> Iterator[tuple[State, Any]]:
+        if not args:
+            raise Unsupported("singledispatch function called without positional argument")
+        a = args[0]
+        if isinstance(a, Rec) and a.real_class is not None:
+            yield from self.apply(f.dispatch(a.real_class), args, kwargs, st)
+            return
+        if not (is_sym(a) or isinstance(a, Rec)):
+            yield from self.apply(f.dispatch(type(a)), args, kwargs, st)
+            return
+        classes = sorted((c for c in f.registry if c is not object), key=lambda c: -len(c.__mro__))  # a subclass before its bases
+        for i, c in enumerate(classes):
+            for d in classes[i + 1:]:
+                if not issubclass(c, d) and _may_share_instances(c, d):
+                    raise Unsupported(f"singledispatch: {c.__name__} and {d.__name__} may share instances (dispatch by MRO not modelled)")
+        isinst = self.natives.get("isinstance")
+        if isinst is None:
+            raise Unsupported("singledispatch on a symbolic argument needs an isinstance contract")
+
+        def go(i, st_):
+            if i == len(classes):
+                yield from self.apply(f.registry[object], args, kwargs, st_)
+                return
+            for st2, cond in isinst(self, st_, [a, classes[i]], {}):
+                for st3, b in self.truth(st2, cond):
+                    if b:
+                        yield from self.apply(f.registry[classes[i]], args, kwargs, st3)
+                    else:
+                        yield from go(i + 1, st3)
+
+        yield from go(0, st)
+
     def apply(self, f, args: list, kwargs: dict, st: State, src_name: str = "") -> Iterator[tuple[State, Any]]:
         """Call value f. Yields (state, value | Exc)."""
         if isinstance(f, tuple) and f and f[0] == "__native__":
@@ -1464,6 +1522,12 @@ class Executor:
             return
         if id(f) in self.native_objs:
             yield from self.native_objs[id(f)](self, st, args, kwargs)
+            return
+        if callable(f) and hasattr(f, "registry") and hasattr(f, "dispatch") and hasattr(f, "__wrapped__") and id(f) not in self.native_objs \
+                and (getattr(f, "__module__", "") or "").startswith(self.auto_inline_prefixes):
+            # functools.singledispatch wrapper: __wrapped__ is only the DEFAULT implementation; the call goes to the implementation
+            # registered for the class of the first argument
+            yield from self._singledispatch(f, args, kwargs, st)
             return
         target = inspect.unwrap(f) if callable(f) and hasattr(f, "__wrapped__") else f
         if f in self.inline or target in self.inline:
@@ -1492,9 +1556,33 @@ class Executor:
         if f is builtins.isinstance and not is_sym(args[0]) and not isinstance(args[0], Rec):
             yield st, isinstance(*args)
             return
+        if f is builtins.type and len(args) == 1 and not kwargs and isinstance(args[0], Rec) and args[0].real_class is not None:
+            yield st, args[0].real_class  # type(record) = the real class the record stands for
+            return
+        if f is builtins.setattr and len(args) == 3 and isinstance(args[0], Rec) and isinstance(args[1], str):
+            args[0].attrs[args[1]] = args[2]  # setattr(record, "name", v)  ==  record.name = v
+            yield st, None
+            return
+        if f is builtins.getattr and len(args) in {2, 3} and isinstance(args[0], Rec) and isinstance(args[1], str):
+            o, name = args[0], args[1]
+            if len(args) == 3 and name not in o.attrs and not (o.real_class is not None and hasattr(o.real_class, name)):
+                yield st, args[2]
+                return
+            v = self.getattr(o, name, st)
+            if isinstance(v, tuple) and len(v) == 3 and v[0] == "__property__":
+                for st3, _kind, val in self.call_function(v[1], st, [v[2]], {}):
+                    yield st3, val
+                return
+            yield st, v
+            return
         if f in (builtins.tuple, builtins.list) and args and not is_sym(args[0]):
             seq = self.concrete_seq(args[0], st)
             yield st, (tuple(seq) if f is builtins.tuple else list(seq))
+            return
+        if f in (builtins.set, builtins.frozenset) and len(args) <= 1 and not kwargs and (not args or isinstance(args[0], (list, tuple, set, frozenset))):
+            # set(<concrete sequence>): the same concrete set of (hashable wrappers of) the elements as a set comprehension builds
+            items = [_hashable(x) for x in (self.concrete_seq(args[0], st) if args and not isinstance(args[0], (set, frozenset)) else (args[0] if args else ()))]
+            yield st, (set(items) if f is builtins.set else frozenset(items))
             return
         if f is builtins.dict and len(args) <= 1:
             if not args:
@@ -1528,6 +1616,20 @@ class Executor:
                 yield st, SV(z3.Or(*bs) if f is builtins.any else z3.And(*bs), "bool")
             else:
                 yield st, f(vals)
+            return
+        # typing.NamedTuple / collections.namedtuple classes: the constructor only stores its arguments -> build the real instance (its
+        # fields may hold symbolic values; attribute access, indexing and unpacking are the tuple's own)
+        if isinstance(f, type) and issubclass(f, tuple) and hasattr(f, "_fields") and f.__new__ is not tuple.__new__:
+            try:
+                yield st, f(*args, **kwargs)
+            except TypeError as e:
+                yield st, Exc("TypeError", e.args)
+            return
+        # logging calls (logger.debug/info/...) have no effect on values: no-ops unless a contract registered a native for them
+        import logging as _logging
+
+        if isinstance(getattr(f, "__self__", None), _logging.Logger) and getattr(f, "__name__", "") in {"debug", "info", "warning", "error", "critical", "exception", "log"}:
+            yield st, None
             return
         # "template".format(a, b) with symbolic arguments and auto-numbered fields is the f-string with the same template
         if getattr(f, "__name__", "") == "format" and isinstance(getattr(f, "__self__", None), str) and not kwargs:
@@ -1584,6 +1686,36 @@ class Executor:
             nm = "apply"
         uf = self.func(f"call_{nm}_{len(arg_terms)}" + "".join(f"_{k}" for k in sorted(kwargs)), *(["obj"] * len(arg_terms)), "obj")
         yield st, SV(uf(*arg_terms) if arg_terms else z3.Const(f"call_{nm}_0", Obj), "obj")
+
+
+def fold_template(n: ast.JoinedStr, vals: list) -> tuple[str, list]:
+    """Template text of an f-string with the holes whose value is a CONCRETE str/int (no format spec, no conversion) folded into the
+    literal text: f"{h}{SUFFIX}" with SUFFIX = ".pkl" is the same string as f"{h}.pkl" and gets the same template."""
+    text, rest, i = "", [], 0
+    for v in n.values:
+        if isinstance(v, ast.Constant):
+            text += str(v.value).replace("{", "{{").replace("}", "}}")
+            continue
+        x = vals[i]
+        i += 1
+        if v.format_spec is None and v.conversion == -1 and type(x) in {str, int}:
+            text += format(x).replace("{", "{{").replace("}", "}}")
+            continue
+        spec = ""
+        if v.format_spec is not None:
+            spec = ":" + "".join(str(c.value) for c in v.format_spec.values if isinstance(c, ast.Constant))
+        text += "{" + spec + "}"
+        rest.append(x)
+    return text, rest
+
+
+def _may_share_instances(a: type, b: type) -> bool:
+    """Can one object be an instance of both classes? (neither is a subclass of the other)"""
+    try:
+        type("_probe", (a, b), {})
+    except TypeError:
+        return False  # layout / metaclass conflict: no common subclass exists
+    return True
 
 
 def _smap_get(ex, st, args, kwargs):
